@@ -36,6 +36,9 @@ class Oracle:
     def reset(self):
         return self.ask("RESET")
 
+    def purge(self, now):
+        return int(self.ask("PURGE %d" % now).split()[1])
+
     def rollback(self):
         return self.ask("ROLLBACK")
 
